@@ -147,7 +147,7 @@ fn sweep_starts(tier: Tier) -> Vec<Start> {
         leaves: vec![A::text("t"), A::comment("c")],
         adjacent_text: false,
     };
-    let n = tier.pick(5, 6);
+    let n = 5;
     let mut out = vec![];
     for k in 1..=n {
         for f in forests(&al, k) {
@@ -191,7 +191,7 @@ pub fn run(tier: Tier) -> i32 {
         "transitions": r.transitions,
         "traces_validated_against_impl": r.transitions,
         "rule": "states = distinct canonical forests; a transition = one manipulation call on the real Xot with one argument tuple; the reference model MForest predicts the forest after every in-contract call and the full read-back (structure, values, handle identity, liveness, string_value) must match; only states reached by in-contract successful calls are expanded",
-        "bounds": {"bfs_depth": depth, "starts": st.len(), "depth1_sweep_starts": sw.len(), "sweep_max_nodes": tier.pick(5, 6)},
+        "bounds": {"bfs_depth": depth, "starts": st.len(), "depth1_sweep_starts": sw.len(), "sweep_max_nodes": 5},
         "levels_completed": r.levels.iter().filter(|l| !l["start"].as_str().unwrap_or("").starts_with("sweep:")).collect::<Vec<_>>(),
     });
     ctx.finish(r.stats, cov, vec!["which node of a merged text run survives is checked only where statement and rustdoc agree (DESIGN 3/C05)".into(), "histories mixing consolidation on and off are C04's".into()])
